@@ -227,6 +227,8 @@ def rules_for(pid):
             ("SUB-live-gate", lambda c: RO.sub_live_gate(c.P, c.E), 1),
             ("H-early-stop", lambda c: RH.h_early_stop(c.P, c.E, c.H), 24),
             ("K-slot-fresh", lambda c: RK.k_slot_fresh(c.P, c.E), 4),
+            # a source subscribed on behalf of a subscriber that has already finished is never released (nor are the closures upstream of it)
+            ("D-compose2-start_with", lambda c: _only(ROPS.compose_rule(c.P, c.E, c.H), ("operators::start_with::StartWith",)), 1),
         ],
         "C18": [
             ("W", lambda c: RW.w_rules(c.P, c.E), 4),
